@@ -7,6 +7,7 @@
 extern crate rustc_abi;
 extern crate rustc_driver;
 extern crate rustc_hir;
+extern crate rustc_index;
 extern crate rustc_interface;
 extern crate rustc_middle;
 extern crate rustc_span;
@@ -177,6 +178,33 @@ struct Ctx<'a, 'tcx> {
     tcx: TyCtxt<'tcx>,
     body: &'a mir::Body<'tcx>,
     def: LocalDefId,
+    promoted: Option<&'a rustc_index::IndexVec<mir::Promoted, mir::Body<'tcx>>>,
+}
+
+/// value of a trivial promoted body (`_1 = const X; _0 = &_1`), e.g. the `&0` in `offset.cmp(&0)`
+fn promoted_scalar<'tcx>(pb: &mir::Body<'tcx>) -> Option<(ty::ScalarInt, Ty<'tcx>)> {
+    let mut found = None;
+    let mut n = 0;
+    for data in pb.basic_blocks.iter() {
+        for st in &data.statements {
+            if let StatementKind::Assign(b) = &st.kind {
+                let (_, rv) = &**b;
+                match rv {
+                    Rvalue::Use(Operand::Constant(c), ..) => {
+                        if let mir::Const::Val(v, ty) = c.const_ {
+                            if let Some(si) = v.try_to_scalar_int() {
+                                found = Some((si, ty));
+                                n += 1;
+                            }
+                        }
+                    }
+                    Rvalue::Ref(..) => {}
+                    _ => return None,
+                }
+            }
+        }
+    }
+    if n == 1 { found } else { None }
 }
 
 fn loc_json(tcx: TyCtxt<'_>, span: Span) -> (J, J) {
@@ -269,8 +297,15 @@ impl<'a, 'tcx> Ctx<'a, 'tcx> {
         match c.const_ {
             mir::Const::Unevaluated(uv, _) => {
                 o.push(("item", s(dpath(tcx, uv.def))));
-                if uv.promoted.is_some() {
+                if let Some(pidx) = uv.promoted {
                     o.push(("promoted", J::Bool(true)));
+                    if let Some(pv) = self.promoted {
+                        if let Some(pb) = pv.get(pidx) {
+                            if let Some((si, pty)) = promoted_scalar(pb) {
+                                o.push(("scalar", scalar_json(si, pty)));
+                            }
+                        }
+                    }
                 }
                 // try to evaluate simple (non-generic) constant items to a scalar
                 if uv.promoted.is_none() && uv.args.is_empty() {
@@ -496,8 +531,8 @@ fn binop_name(op: BinOp) -> &'static str {
     }
 }
 
-fn body_json<'tcx>(tcx: TyCtxt<'tcx>, def: LocalDefId, body: &mir::Body<'tcx>, source: &str) -> J {
-    let cx = Ctx { tcx, body, def };
+fn body_json<'tcx>(tcx: TyCtxt<'tcx>, def: LocalDefId, body: &mir::Body<'tcx>, source: &str, promoted: Option<&rustc_index::IndexVec<mir::Promoted, mir::Body<'tcx>>>) -> J {
+    let cx = Ctx { tcx, body, def, promoted };
     let did = def.to_def_id();
     let kind = match tcx.def_kind(did) {
         DefKind::Fn => "fn",
@@ -699,7 +734,7 @@ impl rustc_driver::Callbacks for Cb {
         let Ok(out_path) = std::env::var("UTPSA_OUT") else {
             return Compilation::Continue;
         };
-        let mut top: Vec<(&'static str, J)> = vec![("crate", s(cname)), ("schema", J::Int(6))];
+        let mut top: Vec<(&'static str, J)> = vec![("crate", s(cname)), ("schema", J::Int(7))];
         top.push(("is_test", J::Bool(tcx.sess.is_test_crate())));
 
         // ------------------------------------------------------------ ADTs, consts, impls
@@ -809,22 +844,27 @@ impl rustc_driver::Callbacks for Cb {
                 continue;
             }
             let path = dpath(tcx, did);
-            let (steal, _p) = tcx.mir_promoted(def);
+            let (steal, psteal) = tcx.mir_promoted(def);
             if steal.is_stolen() {
                 stolen += 1;
                 // const fn bodies may have been consumed by CTFE: fall back to a later phase
                 let b = tcx.mir_drops_elaborated_and_const_checked(def);
                 if b.is_stolen() {
                     let b = tcx.optimized_mir(did);
-                    bodies.push((path, body_json(tcx, def, b, "optimized")));
+                    bodies.push((path, body_json(tcx, def, b, "optimized", None)));
                 } else {
                     let b = b.borrow();
-                    bodies.push((path, body_json(tcx, def, &b, "elaborated")));
+                    bodies.push((path, body_json(tcx, def, &b, "elaborated", None)));
                 }
                 continue;
             }
             let body = steal.borrow();
-            bodies.push((path, body_json(tcx, def, &body, "promoted")));
+            if psteal.is_stolen() {
+                bodies.push((path, body_json(tcx, def, &body, "promoted", None)));
+            } else {
+                let pv = psteal.borrow();
+                bodies.push((path, body_json(tcx, def, &body, "promoted", Some(&*pv))));
+            }
         }
         let _ = &mut inline_consts;
         top.push(("stolen", J::Int(stolen)));
